@@ -39,8 +39,13 @@ Ran(e) == Loaded(e) /\ ~e.runSkipped /\ ~e.runStuck
 
 Selected(e) == IF Req(e) = {} THEN Nodes(e)
                ELSE IF e.noDeps THEN Req(e) ELSE Closure(e, Req(e))
+\* processes outside the selected namespaces are removed after validation: they are never started
+Outside(e) == RangeP(e.outside)
+\* a selected process depending on a process outside the selection: the statement does not say what is "to run"
+\* then (the code refuses to build a run order and starts nothing); only "never started" is demanded
+CrossNS(e) == \E x \in Edges(e) : x[1] \notin Outside(e) /\ x[2] \in Outside(e)
 ExpectedStarted(e) ==
-  IF Req(e) = {} THEN Nodes(e) \ (Dis(e) \cup Fg(e)) ELSE Selected(e) \ Fg(e)
+  (IF Req(e) = {} THEN Nodes(e) \ (Dis(e) \cup Fg(e)) ELSE Selected(e) \ Fg(e)) \ Outside(e)
 
 \* ---- the predicates
 C07_RejectIffCycleOrDangling(e) == e.loadErr <=> (HasCycle(e) \/ Dangling(e))
@@ -48,7 +53,7 @@ C07_RejectIffCycleOrDangling(e) == e.loadErr <=> (HasCycle(e) \/ Dangling(e))
 NoDup(s) == \A a, b \in DOMAIN s : a # b => s[a] # s[b]
 Pos(s, x) == CHOOSE k \in DOMAIN s : s[k] = x
 C07_OrderIsTopologicalAndExact(e) ==
-  Loaded(e) =>
+  (Loaded(e) /\ ~CrossNS(e)) =>
     /\ NoDup(e.order)
     /\ RangeP(e.order) = ReplicasOf(e, ExpectedStarted(e))
     /\ (~e.noDeps =>
@@ -56,7 +61,7 @@ C07_OrderIsTopologicalAndExact(e) ==
              <<BaseOf(e, a), BaseOf(e, b)>> \in DefEdges(e) => Pos(e.order, b) < Pos(e.order, a))
 
 C07_SelectionIsClosure(e) ==
-  Ran(e) =>
+  (Ran(e) /\ ~CrossNS(e)) =>
     /\ RangeP(e.launched) = ReplicasOf(e, ExpectedStarted(e))
     /\ \A r \in ReplicasOf(e, Nodes(e) \ Selected(e)) : r \in RangeP(e.disabledAfter)
     /\ RangeP(e.launched) \cap RangeP(e.disabledAfter) = {}
@@ -68,6 +73,7 @@ C07_DeferredNeverLaunched(e) ==
   Ran(e) =>
     /\ ReplicasOf(e, Fg(e)) \cap RangeP(e.launched) = {}
     /\ (Req(e) = {} => ReplicasOf(e, Dis(e)) \cap RangeP(e.launched) = {})
+    /\ RangeP(e.launchedBase) \cap Outside(e) = {}
 
 PlanViolated(e) ==
   { n \in {"C07_RejectIffCycleOrDangling", "C07_OrderIsTopologicalAndExact", "C07_SelectionIsClosure",
